@@ -88,8 +88,11 @@ var c05Bln = &propTest{
 	gen: func(t *rapid.T) *hcCase {
 		c := genBalloonsCase(t, genOpts{Policy: polBalloons, MinOps: 8, MaxOps: 40, Reconfig: true, FillPools: true, MemPressure: true,
 			Topo: vfkit.TopoOpts{MaxCPUs: 32, SmallMem: true, MaxMemNodes: 8}})
-		if rapid.IntRange(0, 3).Draw(t, "discardedBalloonMotif") == 0 {
+		switch rapid.IntRange(0, 5).Draw(t, "c05Motif") {
+		case 0, 1:
 			blnDiscardedBalloonMotif(t, c)
+		case 2:
+			failureOnLeftoversMotif(t, c)
 		}
 		return c
 	},
